@@ -60,6 +60,50 @@ def generate(E, R, testnet, ln):
     return "ok"
 
 
+def generate_twice(E, R, testnet, ln1, ln2, same_account):
+    """a second request on the same wallet object is answered like a first one"""
+    w, k, c = hw.mk_wallet(E, R, testnet)
+    a1 = E.bv("account", 31)
+    a2 = a1 if same_account else E.bv("account2", 31)
+    s1 = E.bv("start", 32, hi=2 ** 31 - ln1)
+    s2 = E.bv("start2", 32, hi=2 ** 31 - ln2)
+    d1 = E.run(w.generate, a1, (s1, s1 + ln1))
+    d2 = E.run(w.generate, a2, (s2, s2 + ln2))
+    if isinstance(d1, Raised) or isinstance(d2, Raised):
+        return "invalid-bip85"
+    hw.check_generated(E, R, d2, k, c, testnet, a2, s2, ln2, w.mnemonic, w.password, prefix="second request: ")
+    return "ok"
+
+
+def from_mnemonic(E, R, testnet):
+    """the wallet is built by from_mnemonic: MASTER echoes exactly the text the keys were derived from"""
+    from sx.instrument import sx_int_from_bytes as ifb
+    if E.symbolic:
+        from sx import text
+        m, p = text.fresh("mnemonic"), text.fresh("password")
+    else:
+        m, p = E.w.get("_m", "legal winner thank year wave sausage worth useful legal winner thank  yellow"), E.w.get("_p", " pw ")
+    w = E.run(R.paper_wallet.PaperWallet.from_mnemonic, m, p, testnet)
+    if isinstance(w, Raised):
+        return "invalid-master"
+    data = E.run(w.generate, 0, (0, 1))
+    if isinstance(data, Raised):
+        return "invalid-bip85"
+    ms = data["MASTER"]
+    E.check_eq([ms["mnemonic"], ms["password"]], [m, p], "MASTER echoes the mnemonic and passphrase the wallet was built from")
+    import hashlib, unicodedata
+    if E.symbolic:
+        from props.C03 import ref_seed, ref_master
+        key, cc = ref_master(E, ref_seed(E, m, p))
+    else:
+        import hmac
+        seed = hashlib.pbkdf2_hmac("sha512", unicodedata.normalize("NFKD", m).encode(), ("mnemonic" + unicodedata.normalize("NFKD", p)).encode(), 2048)
+        I = hmac.new(b"Bitcoin seed", seed, hashlib.sha512).digest()
+        key, cc = I[:32], I[32:]
+    E.check_eq([w.master.key, w.master.chain_code], [key, cc], "the keys are those of that mnemonic and passphrase")
+    return "ok"
+
+
 def wasabi(E, R, testnet):
     w, k, c = hw.mk_wallet(E, R, testnet)
     js = E.run(w.wasabi_json)
@@ -89,7 +133,12 @@ def cases(tier):
             cs.append(Case("generate[testnet=%s,len=%d]" % (t, ln), "generate", dict(testnet=t, ln=ln), weight=10 * (ln + 1), max_paths=5000,
                            need=("BIP84 account xpub: SLIP-132 version and fields of the account node",) +
                            (("BIP49 row WIF decodes to the key at the stated path",) if ln else ())))
+        cs.append(Case("from_mnemonic[testnet=%s]" % t, "from_mnemonic", dict(testnet=t), weight=8, max_paths=5000,
+                       need=("MASTER echoes the mnemonic and passphrase the wallet was built from",)))
         cs.append(Case("wasabi[testnet=%s]" % t, "wasabi", dict(testnet=t), need=("Wasabi ExtPubKey is the extended public key at m/84'/0'/0'",)))
+    for (l1, l2, same) in ((1, 2, True), (1, 3, True), (2, 1, True), (1, 1, False)):
+        cs.append(Case("twice[%d,%d,same=%s]" % (l1, l2, same), "generate_twice", dict(testnet=False, ln1=l1, ln2=l2, same_account=same),
+                       weight=40, max_paths=20000, need=("second request: BIP84 account xpub: SLIP-132 version and fields of the account node",)))
     return cs
 
 
